@@ -242,6 +242,8 @@ func (r *run) reuseSessions() {
 		panic(err)
 	}
 	jTok, je := []byte(jS), jexp.UnixNano()
+	r.use("session", "NewJSON: the session lives for the configured lifetime", Facts{Genuine: true, InTime: true, Consent: true}, true, nil, "",
+		Pair{"expiry", z(je), z(base + maxttl)})
 	jid := r.ntok
 	r.ntok++
 	jc := &Case{Stream: st, Op: "sessnew", Key: k, MaxTTL: z(maxttl), TTL: "0", T0: z(base), Data: hx16(data), TokID: jid,
